@@ -87,7 +87,7 @@ def plain_eval(P, args, pre=(), off=False, executed=None, mode="letter"):
         if r["c"] == "const":
             return decode(r["v"])
         if r["c"] == "param":
-            return args[r["n"] - 1]
+            return index(args[r["n"] - 1], r["path"])
         if r["c"] == "site":
             return index(env[r["n"] - 1], r["path"])
         return None
@@ -234,7 +234,7 @@ def build(P, attrs, name="top", is_async=False, mc=2, built=None, _counter=None,
             if r["c"] == "const":
                 return decode(r["v"])
             if r["c"] == "param":
-                return params[r["n"] - 1]
+                return index(params[r["n"] - 1], r["path"])
             if r["c"] == "site":
                 return index(env[r["n"] - 1], r["path"])
             return None
